@@ -22,10 +22,15 @@ def run(chk):
     import policy_common as pc
     pc.run_policy_check(chk, "C14", "proj_P14", {"p_metric": 0.9, "p_log": 0.7, "p_no_retry": 0.2}, oracle_pid="C14P", theorems_ok=ok,
                         cov_key="breaker_events", n_quick=200, n_thorough=3000)
+    pc.run_c14_interleave_part(chk)
     if ok:
         import source_tie
         source_tie.runner_ties(chk)
 
 
 def replay(path):
+    import json
+    if json.load(open(path)).get("part") == "interleaved-events":
+        import policy_common as pc
+        return pc.replay_interleaving(path)
     return rc.replay_runner(path)
